@@ -39,6 +39,9 @@ differs only by local, behaviour-preserving refactoring idioms:
   T18 getattr(o, "name") / setattr(o, "name", v) with a constant identifier
       ->  o.name / o.name = v
   T19 a, b = (E(v) for v in (x, y))   ->  a = E(x) ; b = E(y)
+  T21 "ab"[c] / (a, b)[c] with a boolean expression c  ->  b if c else a
+  T20 v = functools.reduce(lambda a, x: E, S, I)
+      ->  v = I ; for x in S: v = E[a := v]
   T17 fields cached in locals over a region
         v = X.a ; w = X.b ; <region: no access to X.a / X.b, no call on or
         with X> ; X.a, X.b = v, w
@@ -66,6 +69,13 @@ _NEG = {ast.Eq: ast.NotEq, ast.NotEq: ast.Eq, ast.Lt: ast.GtE,
 _EXIT = (ast.Return, ast.Raise, ast.Continue, ast.Break)
 _SCOPES = (ast.FunctionDef, ast.AsyncFunctionDef, ast.Lambda, ast.ListComp,
            ast.SetComp, ast.DictComp, ast.GeneratorExp, ast.ClassDef)
+
+
+def U_(e):
+    try:
+        return ast.unparse(e)
+    except Exception:
+        return ''
 
 
 def negate(e):
@@ -592,6 +602,52 @@ class Canon:
         while i < len(stmts):
             s = stmts[i]
             nxt = stmts[i + 1] if i + 1 < len(stmts) else None
+            # T20: v = reduce(lambda a, x: E, S, I)
+            #        ->  v = I ; for x in S: v = E[a := v]
+            if isinstance(s, (ast.Assign, ast.Return)) and isinstance(
+                    s.value, ast.Call) and U_(s.value.func) in (
+                        "functools.reduce", "reduce") and len(
+                            s.value.args) == 3 and not s.value.keywords \
+                    and isinstance(s.value.args[0], ast.Lambda) and len(
+                        s.value.args[0].args.args) == 2 and (
+                        isinstance(s, ast.Return) or (
+                            len(s.targets) == 1 and isinstance(
+                                s.targets[0], ast.Name))):
+                lam, seq, init = s.value.args
+                acc, item = [a.arg for a in lam.args.args]
+                used = {n.id for n in ast.walk(ast.Module(
+                    body=stmts, type_ignores=[]))
+                    if isinstance(n, ast.Name)}
+                vname = s.targets[0].id if isinstance(s, ast.Assign) else \
+                    "reduced__value"
+                if item not in used - {x.id for x in ast.walk(lam)
+                                       if isinstance(x, ast.Name)} and \
+                        acc != item and vname not in {
+                            x.id for x in ast.walk(seq)
+                            if isinstance(x, ast.Name)}:
+                    body_e = _ConstSubst({acc: ast.Name(
+                        id=vname, ctx=ast.Load())}).visit(
+                            copy.deepcopy(lam.body))
+                    news = [
+                        ast.Assign(targets=[ast.Name(id=vname,
+                                                     ctx=ast.Store())],
+                                   value=init),
+                        ast.For(target=ast.Name(id=item, ctx=ast.Store()),
+                                iter=seq,
+                                body=[ast.Assign(
+                                    targets=[ast.Name(id=vname,
+                                                      ctx=ast.Store())],
+                                    value=body_e)],
+                                orelse=[])]
+                    if isinstance(s, ast.Return):
+                        news.append(ast.Return(value=ast.Name(
+                            id=vname, ctx=ast.Load())))
+                    for x in news:
+                        ast.copy_location(x, s)
+                        ast.fix_missing_locations(x)
+                    self.did("T20.reduce-to-loop")
+                    stmts[i:i + 1] = news
+                    continue
             # T19: a, b = (E(v) for v in (x, y))  ->  a = E(x) ; b = E(y)
             if isinstance(s, ast.Assign) and len(s.targets) == 1 and \
                     isinstance(s.targets[0], (ast.Tuple, ast.List)) and \
@@ -1271,6 +1327,14 @@ class Canon:
                             setattr(n, field, r)
                         self.did("T10.operator-call")
                         continue
+                    r = _bool_index(x)
+                    if r is not None:
+                        if isinstance(val, list):
+                            val[k] = r
+                        else:
+                            setattr(n, field, r)
+                        self.did("T21.bool-index")
+                        continue
                     r = _const_attr_call(x)
                     if r is not None:
                         if isinstance(val, list):
@@ -1372,6 +1436,24 @@ _OPERATOR_BIN = {"add": ast.Add, "sub": ast.Sub, "mul": ast.Mult,
                  "iadd": ast.Add, "isub": ast.Sub, "imul": ast.Mult,
                  "ifloordiv": ast.FloorDiv, "imod": ast.Mod,
                  "itruediv": ast.Div}
+
+
+def _bool_index(x):
+    """"ab"[c] / (a, b)[c] with a boolean expression c -> (b if c else a)"""
+    if not (isinstance(x, ast.Subscript) and isinstance(
+            getattr(x, "ctx", None), ast.Load) and _is_boolean_expr(
+                x.slice)):
+        return None
+    v = x.value
+    if isinstance(v, ast.Constant) and isinstance(v.value, str) and len(
+            v.value) == 2:
+        a, b = (ast.Constant(value=v.value[0]), ast.Constant(value=v.value[1]))
+    elif isinstance(v, (ast.Tuple, ast.List)) and len(v.elts) == 2 and all(
+            isinstance(e, (ast.Constant, ast.Name)) for e in v.elts):
+        a, b = v.elts
+    else:
+        return None
+    return ast.copy_location(ast.IfExp(test=x.slice, body=b, orelse=a), x)
 
 
 def _const_attr_call(x):
